@@ -20,6 +20,8 @@ def jobs(tier, seed):
     # real threads: the real poll thread handles a flood of messages while the real timer thread saves every few ms
     for i in range(6 if q else 24):
         out.append({"kind": "real-threads", "seed": seed * 100 + i, "version": VERSIONS[i % 5], "ext": ["json", "pickle"][i % 2]})
+    for i in range(2 if q else 6):
+        out.append({"kind": "real-threads", "seed": seed * 100 + 30 + i, "version": VERSIONS[i % 5], "ext": ["json", "pickle"][i % 2], "stop_in_callback": True})
     for i in range(4 if q else 16):
         out.append({"kind": "real-loop", "seed": seed * 100 + 50 + i, "version": VERSIONS[i % 5], "ext": ["pickle", "json"][i % 2]})
     return out
@@ -133,7 +135,20 @@ def run_real_threads(job, res, tmp):
     threading.excepthook = lambda a: died.append((type(a.exc_value).__name__, str(a.exc_value)[:80]))
     gw = None
     try:
-        gw = BaseSyncGateway(RecT(), persistence=True, persistence_file=path, protocol_version=version)
+        stop_in_cb = job.get("stop_in_callback", False)
+        cb_state = {"exc": None, "called": False}
+
+        def event(msg):
+            # the user shuts the gateway down from the event callback (a "power off" switch on a node): stop() then runs
+            # on the poll thread itself
+            if stop_in_cb and msg.node_id == 99 and not cb_state["called"]:
+                cb_state["called"] = True
+                try:
+                    gw.stop()
+                except Exception as exc:
+                    cb_state["exc"] = exc
+
+        gw = BaseSyncGateway(RecT(), persistence=True, persistence_file=path, protocol_version=version, event_callback=event)
         orig_logic = gw.logic
 
         def logic(data):
@@ -161,10 +176,19 @@ def run_real_threads(job, res, tmp):
             time.sleep(0.005)
         time.sleep(rng.choice([0.0, 0.003, 0.02]))
         stop_exc = None
-        try:
-            gw.stop()
-        except Exception as exc:     # judged below: a stop() that raises has not done its job
-            stop_exc = exc
+        if stop_in_cb:
+            gw.tasks.add_job(gw.logic, f"99;255;0;0;17;{version}")      # the message whose callback calls stop()
+            t_end = time.time() + 10
+            while not cb_state["called"] and time.time() < t_end:
+                time.sleep(0.005)
+            time.sleep(0.1)
+            stop_exc = cb_state["exc"]
+            res.count("real_thread_stops_from_the_callback", int(cb_state["called"]))
+        else:
+            try:
+                gw.stop()
+            except Exception as exc:     # judged below: a stop() that raises has not done its job
+                stop_exc = exc
         held = projection(gw.sensors)
         time.sleep(0.05)        # a save that was in flight in the timer thread finishes
     finally:
@@ -180,7 +204,7 @@ def run_real_threads(job, res, tmp):
     res.count("real_thread_failed_saves", stats["save_errors"])
     res.count("real_thread_messages_handled_during_a_save", stats["saves_overlapping_a_message"])
     res.count("real_thread_messages", len(lines))
-    case = {"real_threads": True, "seed": job["seed"], "version": version, "ext": ext}
+    case = {"real_threads": True, "seed": job["seed"], "version": version, "ext": ext, "stop_in_callback": job.get("stop_in_callback", False)}
     if stats["saves_overlapping_a_message"]:
         res.nontrivial(("real-threads", version, ext, job["seed"]))
     if stop_exc is not None:
@@ -424,7 +448,7 @@ def replay(case):
             return res
         if case.get("real_threads"):
             for k in range(3):      # real threads: not replayable bit for bit, the same workload is run three times
-                run_real_threads({"seed": case["seed"], "version": case["version"], "ext": case["ext"]}, res, tmp)
+                run_real_threads({"seed": case["seed"], "version": case["version"], "ext": case["ext"], "stop_in_callback": case.get("stop_in_callback", False)}, res, tmp)
             return res
         out = run_one(case["cfg"], case["steps"], tmp)
         judge(res, case["cfg"], case["steps"], out, "replay")
@@ -453,7 +477,7 @@ def finish(agg, tier):
                    ("stops_during_a_tick", c.get("stops_during_a_tick", 0), 100),
                    ("real_thread_runs", c.get("real_thread_runs", 0), 6),
                    ("real_thread_messages_handled_during_a_save", c.get("real_thread_messages_handled_during_a_save", 0), 50),
-                   ("real_loop_runs", c.get("real_loop_runs", 0), 4),
+                   ("real_loop_runs", c.get("real_loop_runs", 0), 4), ("real_thread_stops_from_the_callback", c.get("real_thread_stops_from_the_callback", 0), 2),
                    ("real_loop_messages_handled_during_a_save", c.get("real_loop_messages_handled_during_a_save", 0), 20)],
         "assumptions": ["save ticks = the real schedule_save body (threaded, captured Timer) / the real save loop on a virtual-time "
                         "asyncio loop with run_in_executor inline"],
